@@ -157,6 +157,10 @@ def e2e_matrix(chk):
     nrand = 2 if chk.tier == "quick" else 6
     jobs = []
     for label, a in base:
+        # prior caller memory vs output: compared at one worker per stage (the encoder is not run-to-run deterministic with
+        # logical_processors >= 2 and TPL on: recorded finding C04-tpl-nondeterministic-lp2plus)
+        a = dict(a)
+        a.setdefault("cfg.logical_processors", 1)
         seed_free = a["content"] in (2, 3)
         for d in byte_fills:
             jobs.append((label, dict(a, dirty=d, seed=7, hex=1, recon=1, decode=0, watchdog=150)))
